@@ -122,6 +122,8 @@ class EvalInterp(ArrInterp):
                 return Sym(f"dtypeof:{base.side}")
             if attr == "size":
                 return len(base.items)
+            if attr == "ndim":
+                return 1
             return _VM(base, attr)
         if isinstance(base, BoolVec):
             return _VM(base, attr)
